@@ -124,6 +124,7 @@ pub fn run(args: &Args) {
             break;
         }
         let mut grng = rng.fork();
+        cfg.builtin_named_rules = gi % 5 == 4;
         let rules = gen_grammar(&mut grng, &cfg);
         let text = vmon::print::rules_to_string(&rules);
         rep.count("grammars_generated");
